@@ -191,6 +191,47 @@ def suite_memloc(ctx):
             if dec is None or dec[:4] != (exp[0] // 8, exp[1] // 8, a, z):
                 s.fail(dict(rec, observed='frame %s decodes to %s' % (sends[0].hex(), dec), required='widths %s, address %d, size %d' % (exp, a, z)))
         s.count('reuse')
+    # the caller re-points one MemoryLocation object (address / memorysize assigned anew) between two calls: the second request is sized for the new values
+    for _ in range(ctx.n(300, 6000)):
+        bits1, bits2 = rng.choice([1, 8, 9, 16, 17, 24, 32, 40, 64]), rng.choice([1, 8, 9, 16, 17, 24, 32, 40, 64])
+        a1, a2 = rng.getrandbits(bits1), rng.getrandbits(bits2)
+        z1, z2 = rng.getrandbits(rng.choice([1, 8, 9, 16, 32])), rng.getrandbits(rng.choice([1, 8, 9, 16, 32]))
+        af, mf = rng.choice([(None, None), (None, None), (rng.choice(VALID), None), (None, rng.choice(VALID))])
+        caf, cmf = rng.choice([(None, None), (None, None), (rng.choice(VALID), rng.choice(VALID))])
+        k = rng.choice(KINDS)
+        try:
+            ml = MemoryLocation(a1, z1, af, mf)
+        except Exception:  # noqa
+            continue
+
+        def call(client):
+            if k == 'read':
+                return client.read_memory_by_address(ml)
+            if k == 'write':
+                return client.write_memory_by_address(ml, b'\x01')
+            return client.request_download(ml) if k == 'download' else client.request_upload(ml)
+        c1, conn1 = cl.make_client(cl.Cfg(rt=4, p2=2, p2s=2), extra={'server_address_format': caf, 'server_memorysize_format': cmf})
+        cl.observe_outer(conn1, lambda: call(c1))
+        # formats the first call left on the object (a configured format is taken over; automatic sizing leaves None)
+        af2, mf2 = ml.address_format, ml.memorysize_format
+        ml.address, ml.memorysize = a2, z2
+        conn1.log = []
+        cl.observe_outer(conn1, lambda: call(c1))
+        sends = [o[1] for o in conn1.log if o[0] == 'send']
+        exp = expected_widths(a2, z2, af2, mf2, caf, cmf)
+        s.evaluations += 1
+        rec = {'site': k + ' with a re-pointed MemoryLocation', 'input': 'first a=%d s=%d af=%s mf=%s under server formats (%s, %s); then the same object with address=%d memorysize=%d' % (a1, z1, af, mf, caf, cmf, a2, z2)}
+        s.distinct.add(rec['input'])
+        if exp is None:
+            if sends:
+                s.fail(dict(rec, observed='sent ' + sends[0].hex(), required='out of domain: the new value does not fit the width in force'))
+        elif not sends:
+            s.fail(dict(rec, observed='rejected', required='transmitted with widths %s' % (exp,)))
+        else:
+            dec = iso_decode(sends[0], {'read': 1, 'write': 1, 'download': 2, 'upload': 2}[k])
+            if dec is None or dec[:4] != (exp[0] // 8, exp[1] // 8, a2, z2):
+                s.fail(dict(rec, observed='frame %s decodes to %s' % (sends[0].hex(), dec), required='widths %s, address %d, size %d' % (exp, a2, z2)))
+        s.count('re-pointed')
     core.compare(s, lines, core.drv_batch(lines), impl, nontrivial=lambda i, o: o != 'reject')
     s.sample({'line': lines[5], 'impl': impl[5]})
     s.sample({'line': lines[-1], 'impl': impl[-1]})
